@@ -196,8 +196,8 @@ def run(c, chk):
                 rule, ln = dfa.match(scname, s[i:])
                 neval += 1
                 got = K.get(rule, ['?'])
-                if len(got) > 1:
-                    # the action branches on the matched text: keep the paths this text can take
+                if len(got) > 1 or any('?' in g_ for g_ in got):
+                    # the action branches on / returns part of the matched text: keep the paths this text can take
                     got = lexmodel.classes_for(lex, rule, s[i:i + ln])
                 good = (ln == exp[1]) and implements(exp[0], got)
                 if good and exp[0].startswith('env') and len(exp) > 2:
@@ -248,9 +248,14 @@ def run(c, chk):
     for opener, sc_to, what in ((b'"', dfa.sc['dq_str'], 'dq_str'), (b"'", dfa.sc['sq_str'], 'sq_str')):
         r, ln = dfa.match('INITIAL', opener + b'x')
         k = K.get(r)
+        aps_ = lex.actions[r]
+        if k and len(k) > 1:
+            # one rule for both quotes: keep the paths this quote takes
+            k = lexmodel.classes_for(lex, r, opener)
+            aps_ = [ap for ap in lex.actions[r] if lexmodel.consistent_with(ap, opener, lex)]
         if ln == 1 and k == ['begin%d' % sc_to]:
             # must also reset the buffer index
-            okidx = all(any(x[0] == 'qvar' and x[1] == '@qstring_index' and x[2] == sym.C0 for x in ap.effects) for ap in lex.actions[r])
+            okidx = all(any(x[0] == 'qvar' and x[1] == '@qstring_index' and x[2] == sym.C0 for x in ap.effects) for ap in aps_)
             if okidx:
                 chk.ok('R3.1' if what == 'dq_str' else 'R3.2', 'opening %r' % opener, 'enters <%s> with an empty buffer' % what)
             else:
@@ -342,10 +347,13 @@ def run(c, chk):
             b'\n': 'skip+line1'}
     for tok, cls in sorted(want.items()):
         r, ln = dfa.match('INITIAL', tok + b'a')
-        if ln == len(tok) and K.get(r) == [cls]:
+        got_ = K.get(r)
+        if got_ and (len(got_) > 1 or any('?' in g_ for g_ in got_)):
+            got_ = lexmodel.classes_for(lex, r, tok)
+        if ln == len(tok) and got_ == [cls]:
             chk.ok('R3.4', 'token %r' % tok, cls, nontrivial=False)
         else:
-            chk.fail('R3.4', 'punct:%r' % tok, 'src/lexer.l:%d' % dfa.rule_line.get(r, 0), 'input %r selects %s over %d byte(s) with effect %s, expected %s' % (tok, lex.rule_name(r), ln, K.get(r), cls))
+            chk.fail('R3.4', 'punct:%r' % tok, 'src/lexer.l:%d' % dfa.rule_line.get(r, 0), 'input %r selects %s over %d byte(s) with effect %s, expected %s' % (tok, lex.rule_name(r), ln, got_, cls))
 
     # ---- R3.5 comments ----------------------------------------------------------
     ncomm = 0
